@@ -136,7 +136,7 @@ def run(c, a):
         # ---- 1. design
         def one(job):
             mod, cfg, must_hold = job
-            return job, c.tlc("MuxPool", mod, cfg, workers=4, timeout=800 if c.tier == "thorough" else 120,
+            return job, c.tlc("MuxPool", mod, cfg, workers=4, timeout=1800 if c.tier == "thorough" else 900,   # generous: a TLC timeout under load is exit 2, not a verdict
                               name="design-" + cfg[:-4])
         with ThreadPoolExecutor(max_workers=4) as ex:
             design_results = list(ex.map(one, prof["design"]))
